@@ -442,7 +442,10 @@ def _run_check(ctx, fam, prop, tier, t0):
         # a liveness observation (C08_Alive: a block not executed within the time limit, a node that did not come back) can be
         # an artefact of a loaded machine: it gets three re-runs; everything else one
         timing_only = all(v[2] == "C08_Alive" for v in vs)
-        for attempt in range(3 if timing_only else 1):
+        # replica disagreement that depends on how goroutines are scheduled (C01 says it must not) need not show in every run of
+        # the same inputs either: three re-runs as well; only a reproduced disagreement is a verdict
+        sched = all(v[2] == "C01_Agreement" for v in vs)
+        for attempt in range(3 if (timing_only or sched) else 1):
             try:
                 f2 = [fam.rerun(ctx, x["plan"]) for x in grp]
                 _, r2 = validate_files(ctx, fam, f2)
@@ -467,6 +470,8 @@ def _run_check(ctx, fam, prop, tier, t0):
         print("VIOLATION property=%s replay=%s" % (prop, rp), flush=True)
         log("  violated: %s at trace lines %s" % (invs, sorted(set(v[1] - a + 1 for v in vs))[:5]))
         exit_code = 1
+    if violations > 0:
+        exit_code = 1   # a reproduced violation is the verdict, whatever else did not reproduce
     for d in drift[:20]:
         print("DRIFT: family=%s trace=%s line=%s field=%s" % (fam.name, d[0], d[1], d[2]), flush=True)
     cov = {"states": max(states, 1) if mc_info else 0, "transitions": max(trans, 1) if mc_info else 0,
